@@ -1787,6 +1787,12 @@ impl Value {
                                 return Some(rv);
                             }
                         }
+                    } else if key.as_i64().is_some_and(|i| i < 0) && dy.enumerator_len().is_none() {
+                        // a negative index into an iterable without a known
+                        // length counts from the end of the materialized items.
+                        let items: Vec<Value> = some!(dy.try_iter()).collect();
+                        let idx = some!(index(key, || Some(items.len())));
+                        return items.into_iter().nth(idx);
                     }
                     None
                 }
